@@ -24,8 +24,8 @@ def level(e):
 def toks(e, req=0, full=False):
     """token strings of expression e in a position that admits level >= req"""
     k = e[0]
-    if full and k not in ("num", "str", "kw", "var", "grp"):
-        inner = toks(e, 0, False) if False else _toks(e, True)
+    if full and k != "grp" and (full == 2 or k not in ("num", "str", "kw", "var")):      # full == 2: atoms are wrapped as well
+        inner = _toks(e, full)
         return ["("] + inner + [")"]
     out = _toks(e, full)
     if level(e) < req:
@@ -162,7 +162,7 @@ def fuse(a, b):
     return False
 
 
-def render(tokens, rng=None, vary=False, keyword_case=False):
+def render(tokens, rng=None, vary=False, keyword_case=False, compact=False):
     """canonical rendering (single blanks, newline terminators) or a random legal variation"""
     out = []
     real = [t for t in tokens]
@@ -195,6 +195,9 @@ def render(tokens, rng=None, vary=False, keyword_case=False):
                     out.append(rng.choice(["\n\n", "\r\n", " \n", "\n\t", " // c\n", "\n// c é\n"]))
                 else:
                     out.append("\n")
+            continue
+        if compact:
+            out.append("" if not fuse(t, nxt) else " ")      # no blank wherever the two tokens cannot fuse: l[i]-1, f(x)*2, a<-b
             continue
         if not vary or rng is None:
             out.append(" ")
